@@ -136,6 +136,8 @@ pub fn replay(path: &str) -> i32 {
             Decoded::Err(e) => println!("real: Err({e})"),
             Decoded::Panic(p) => println!("real: PANIC {p}"),
         }
+    } else if input.starts_with("frame=") {
+        return crate::e3::replay(input);
     } else if input.starts_with("prop=") {
         return crate::e2::replay_history(input);
     } else {
